@@ -283,8 +283,16 @@ class Pipeline(object):
         self.parallel = parallel
         self.pool = concurrent.futures.ThreadPoolExecutor(max_workers=parallel)
         self.by = {}
+        self.rejected = 0
+        self.dropped = 0
+
+    MIN_SPLIT = 2000
+    SATURATED = 30000      # after that many rejections further events are not recorded (the verdict is settled: exit 1)
 
     def add(self, e, group=None):
+        if self.rejected >= self.SATURATED:
+            self.dropped += 1
+            return
         self.buf.append(e)
         self.n += 1
         self.ctx.count(self.count_key(e))
@@ -324,6 +332,17 @@ class Pipeline(object):
         ctx = self.ctx
         ctx.cov['tlc_runs'].append({'module': self.module, 'cfg': self.module + '.cfg', 'generated': r['generated'],
                                     'distinct': r['distinct'], 'ok': r['ok'], 'wall_s': r['wall'], 'tag': 'trace', 'actions': None})
+        if res is None and len(events) > self.MIN_SPLIT:
+            # most likely the verdict list grew too long for one TLC run (a badly broken tree rejects nearly every event and
+            # the list is part of every TLC state): validate the batch again in ten pieces
+            step = (len(events) + 9) // 10
+            for at in range(0, len(events), step):
+                self.seq += 1
+                self.pending.insert(0, (_Done(self._job(events[at:at + step], ctx.path('%s_%d.json' % (self.module, self.seq)))),
+                                        events[at:at + step]))
+            for _ in range(0, len(events), step):
+                self._collect()
+            return
         if res is None:
             raise core.MachineryError('trace validation run of %s failed: %s\n%s' % (self.module, r['error'], r['out'][-3000:]))
         if res.get('n') != len(events):
@@ -332,6 +351,7 @@ class Pipeline(object):
         ctx.cov['transitions'] += r['generated']
         ctx.cov['traces_validated_against_impl'] += 1
         for v in res.get('viol', []):
+            self.rejected += 1
             self.on_reject(v[1], events[v[0] - 1])
 
     def finish(self):
@@ -339,8 +359,20 @@ class Pipeline(object):
         while self.pending:
             self._collect()
         self.pool.shutdown()
+        if self.dropped:
+            self.ctx.cov['events_not_recorded_after_%d_rejections' % self.SATURATED] = self.dropped
         if self.n == 0:
             raise core.MachineryError('no events were generated (vacuous run)')
+
+
+class _Done(object):
+    """A finished job in the shape of a future."""
+
+    def __init__(self, value):
+        self.value = value
+
+    def result(self):
+        return self.value
 
 
 class Sink(object):
